@@ -37,7 +37,19 @@ def corpus(rnd, n):
     out = ['$\\%s%s x$' % (a, b) for a in SIZES for b in DELIMS]
     out += [gen.document(rnd.randrange(10 ** 9), 3)[0] for _ in range(n)]
     out += ['\\begin{a}x\\end{a}', 'a\\\\b', '\\left.|x\\right.', '{\\x[o]{r}}%c\n$m$']
+    # brace-less mandatory arguments (coerced from strings by the argument list), repeated texts
+    out += ['\\section x and \\label k done', '\\textbf a\\textbf a', '\\section x\\section x', '\\label k \\ref{k}\\label k']
     return out
+
+
+def walk(e):
+    from TexSoup.data import TexExpr
+    yield e
+    if isinstance(e, TexExpr):
+        for a in list(e.args):
+            yield from walk(a)
+        for c in e._contents:
+            yield from walk(c)
 
 
 def forms(s, rnd, allsplits):
@@ -111,7 +123,19 @@ def main(tier):
             a.expr._contents.clear()
         except Exception:
             pass
+        try:        # deep edit of the earlier parse: empty every argument group and content list
+            from TexSoup.data import TexExpr as _TE
+            for e in list(walk(a.expr)):
+                if isinstance(e, _TE):
+                    e._contents.clear()
+        except Exception:
+            pass
         b1, b2 = TexSoup(s), TexSoup(s)
+        from TexSoup.data import TexExpr as _TE
+        shared = {id(e) for e in walk(b1.expr) if isinstance(e, _TE)} & {id(e) for e in walk(b2.expr) if isinstance(e, _TE)}
+        if shared:
+            sw.violation('parses-share-objects', 'two parses of %r share %d expression objects' % (s, len(shared)),
+                         REPLAY_HEAD + 'sys.path.insert(0, %r)\nimport c17\nfrom TexSoup import TexSoup\nfrom TexSoup.data import TexExpr\ns=%r\na,b=TexSoup(s),TexSoup(s)\nsh={id(e) for e in c17.walk(a.expr) if isinstance(e,TexExpr)}&{id(e) for e in c17.walk(b.expr) if isinstance(e,TexExpr)}\nprint(len(sh)); sys.exit(1 if sh else 0)\n' % (os.path.dirname(os.path.abspath(__file__)), s), s)
         if (str(b1), repr(shape(b1.expr))) != before:
             sw.violation('parse-influenced-by-earlier-edit', 'parsing %r after editing an earlier parse of it gives a different result' % s,
                          REPLAY_HEAD + 'sys.exit(1)\n', s)
